@@ -7,9 +7,12 @@ package main
 // concrete base path and pattern strings handed to the client are rendered from it.
 
 import (
+	"context"
 	"encoding/hex"
 	"encoding/json"
 	"fmt"
+	"io"
+	"net/http"
 	"net/url"
 	"sort"
 	"strings"
@@ -132,7 +135,8 @@ type Case struct {
 	Query   []QP     `json:"query"`  // query parameters the caller sets
 	Rt      []string `json:"rt_schemes"`
 	Op      []string `json:"op_schemes"`
-	Repeat  int      `json:"repeat"` // executions per setting order (samples Go's map iteration order); 0 = 1
+	Repeat  int      `json:"repeat"`        // executions per setting order (samples Go's map iteration order); 0 = 1
+	Via     string   `json:"via,omitempty"` // entry point / variant, see "the exported surface" below; "" = common path
 }
 
 type failure struct{ Class, What string }
@@ -198,73 +202,90 @@ func (o observation) String() string {
 	return fmt.Sprintf("url=%q (escaped path %q, raw query %q)", o.Full, o.Escaped, o.RawQ)
 }
 
-// rtCache keeps one client.Runtime per (host, base path, transport schemes); a
-// Runtime is meant to be shared by all operations of a client.
-type rtCache map[string]*client.Runtime
+// ---- how a case reaches the client: the exported surface ----
+//
+// Via (a field of Case) names the entry point / variant; "" is the common path.
+//
+//	""             client.New(host, basePath, schemes); Runtime.CreateHttpRequest; parameters set by op.Params
+//	"field"        client.New(decoy host, decoy base path, schemes), then the EXPORTED fields Host and BasePath are
+//	               assigned before the call (every call: a Runtime shared by cases is re-targeted between calls)
+//	"withclient"   client.NewWithClient(host, basePath, schemes, &http.Client{...})
+//	"submit"       Runtime.Submit; the URL is read off the request the transport receives
+//	"opentracing"  Runtime.WithOpenTracing().Submit with a context (the wrapper wraps op.Params)
+//	"otel"         Runtime.WithOpenTelemetry().Submit with a context
+//	"auth"         parameters set by op.AuthInfo (a ClientAuthInfoWriter) instead of op.Params
+//	"default-auth" parameters set by Runtime.DefaultAuthentication
+//	"getters"      op.Params also calls GetQueryParams (and mutates the returned copy), GetPath, GetMethod, GetHeaderParams
+//	"post"         method POST instead of GET
+var variants = []string{"field", "withclient", "submit", "opentracing", "otel", "auth", "default-auth", "getters", "post"}
 
-func (rc rtCache) get(host, base string, schemes []string) *client.Runtime {
-	k := host + "\x00" + base + "\x00" + strings.Join(schemes, ",")
-	if r, ok := rc[k]; ok {
-		return r
+const decoyHost, decoyBase = "decoy.invalid", "/decoy?dq=1"
+
+// captureRT is the transport double of every Runtime: it records the URL it is asked to fetch.
+type captureRT struct{ last *url.URL }
+
+func (t *captureRT) RoundTrip(req *http.Request) (*http.Response, error) {
+	u := *req.URL
+	t.last = &u
+	return &http.Response{StatusCode: 200, Status: "200 OK", Proto: "HTTP/1.1", ProtoMajor: 1, ProtoMinor: 1,
+		Header: http.Header{"Content-Type": []string{"application/json"}}, Body: io.NopCloser(strings.NewReader("")), Request: req}, nil
+}
+
+type rtHandle struct {
+	rt  *client.Runtime
+	cap *captureRT
+}
+
+// newHandle constructs the Runtime the way the case's variant says.
+func newHandle(c *Case) *rtHandle {
+	h := &rtHandle{cap: &captureRT{}}
+	switch c.Via {
+	case "field":
+		h.rt = client.New(decoyHost, decoyBase, c.Rt)
+	case "withclient":
+		h.rt = client.NewWithClient(c.Host, c.Base.Render(), c.Rt, &http.Client{Transport: h.cap})
+	default:
+		h.rt = client.New(c.Host, c.Base.Render(), c.Rt)
+	}
+	h.rt.Transport = h.cap
+	return h
+}
+
+// rtCache keeps one Runtime per (variant, host, base path, transport schemes); a Runtime is
+// meant to be shared by all operations of a client. Variant "field" shares one Runtime per
+// scheme list and re-targets it before every call.
+type rtCache map[string]*rtHandle
+
+func (rc rtCache) get(c *Case) *rtHandle {
+	k := c.Via + "\x00" + strings.Join(c.Rt, ",")
+	if c.Via != "field" {
+		k += "\x00" + c.Host + "\x00" + c.Base.Render()
+	}
+	if h, ok := rc[k]; ok {
+		return h
 	}
 	if len(rc) > 256 {
 		for kk := range rc {
 			delete(rc, kk)
 		}
 	}
-	r := client.New(host, base, schemes)
-	rc[k] = r
-	return r
+	h := newHandle(c)
+	rc[k] = h
+	return h
 }
 
-// execute drives the real client: client.New(host, basePath, schemes), an
-// operation with the pattern and a params writer that sets path parameters in
-// the given order, then Runtime.CreateHttpRequest.
+// execute drives the real client through the case's entry point.
 func execute(rc rtCache, c *Case, order []int) (o observation) {
 	defer func() {
 		if e := recover(); e != nil {
 			o = observation{Panic: fmt.Sprint(e)}
 		}
 	}()
-	return executeOn(rc.get(c.Host, c.Base.Render(), c.Rt), c, order)
+	return executeOn(rc.get(c), c, order)
 }
 
-// executeOn builds the request of the case on the given Runtime.
-func executeOn(rt *client.Runtime, c *Case, order []int) (o observation) {
-	defer func() {
-		if e := recover(); e != nil {
-			o = observation{Panic: fmt.Sprint(e)}
-		}
-	}()
-	op := &runtime.ClientOperation{
-		ID:          "c10",
-		Method:      "GET",
-		PathPattern: c.Pattern.Render(),
-		Schemes:     c.Op,
-		Params: runtime.ClientRequestWriterFunc(func(req runtime.ClientRequest, _ strfmt.Registry) error {
-			for _, i := range order {
-				if err := req.SetPathParam(string(c.Params[i].K), string(c.Params[i].V)); err != nil {
-					return err
-				}
-			}
-			for _, q := range c.Query {
-				vals := make([]string, len(q.Vals))
-				for i, v := range q.Vals {
-					vals[i] = string(v)
-				}
-				if err := req.SetQueryParam(string(q.Name), vals...); err != nil {
-					return err
-				}
-			}
-			return nil
-		}),
-	}
-	req, err := rt.CreateHttpRequest(op)
-	if err != nil {
-		return observation{Err: err.Error()}
-	}
-	u := req.URL
-	o = observation{Scheme: u.Scheme, Host: u.Host, Path: u.Path, Escaped: u.EscapedPath(), RawQ: u.RawQuery, Full: u.String()}
+func observe(u *url.URL) observation {
+	o := observation{Scheme: u.Scheme, Host: u.Host, Path: u.Path, Escaped: u.EscapedPath(), RawQ: u.RawQuery, Full: u.String()}
 	var extra []string
 	if u.Fragment != "" || u.RawFragment != "" {
 		extra = append(extra, "fragment="+u.Fragment)
@@ -277,6 +298,92 @@ func executeOn(rt *client.Runtime, c *Case, order []int) (o observation) {
 	}
 	o.Extra = strings.Join(extra, " ")
 	return o
+}
+
+// executeOn builds the request of the case on the given Runtime.
+func executeOn(h *rtHandle, c *Case, order []int) (o observation) {
+	defer func() {
+		if e := recover(); e != nil {
+			o = observation{Panic: fmt.Sprint(e)}
+		}
+	}()
+	rt := h.rt
+	setParams := func(req runtime.ClientRequest, _ strfmt.Registry) error {
+		for _, i := range order {
+			if err := req.SetPathParam(string(c.Params[i].K), string(c.Params[i].V)); err != nil {
+				return err
+			}
+		}
+		for _, q := range c.Query {
+			vals := make([]string, len(q.Vals))
+			for i, v := range q.Vals {
+				vals[i] = string(v)
+			}
+			if err := req.SetQueryParam(string(q.Name), vals...); err != nil {
+				return err
+			}
+		}
+		if c.Via == "getters" {
+			cp := req.GetQueryParams() // documented as a copy: changing it must not reach the URL
+			for k, v := range cp {
+				for i := range v {
+					v[i] = "mutated"
+				}
+				cp[k] = append(v, "appended")
+			}
+			cp["junk"] = []string{"1"}
+			_, _, _ = req.GetPath(), req.GetMethod(), req.GetHeaderParams()
+		}
+		return nil
+	}
+	noop := func(runtime.ClientRequest, strfmt.Registry) error { return nil }
+	op := &runtime.ClientOperation{
+		ID:          "c10",
+		Method:      "GET",
+		PathPattern: c.Pattern.Render(),
+		Schemes:     c.Op,
+		Params:      runtime.ClientRequestWriterFunc(setParams),
+		Reader: runtime.ClientResponseReaderFunc(func(runtime.ClientResponse, runtime.Consumer) (interface{}, error) {
+			return nil, nil
+		}),
+	}
+	rt.DefaultAuthentication = nil
+	switch c.Via {
+	case "field":
+		rt.Host, rt.BasePath = c.Host, c.Base.Render()
+	case "auth":
+		op.Params = runtime.ClientRequestWriterFunc(noop)
+		op.AuthInfo = runtime.ClientAuthInfoWriterFunc(setParams)
+	case "default-auth":
+		op.Params = runtime.ClientRequestWriterFunc(noop)
+		rt.DefaultAuthentication = runtime.ClientAuthInfoWriterFunc(setParams)
+	case "post":
+		op.Method = "POST"
+	}
+	switch c.Via {
+	case "submit", "opentracing", "otel":
+		h.cap.last = nil
+		var tr runtime.ClientTransport = rt
+		if c.Via == "opentracing" {
+			op.Context = context.Background()
+			tr = rt.WithOpenTracing()
+		} else if c.Via == "otel" {
+			op.Context = context.Background()
+			tr = rt.WithOpenTelemetry()
+		}
+		if _, err := tr.Submit(op); err != nil {
+			return observation{Err: err.Error()}
+		}
+		if h.cap.last == nil {
+			return observation{Err: "Submit returned without asking the transport for anything"}
+		}
+		return observe(h.cap.last)
+	}
+	req, err := rt.CreateHttpRequest(op)
+	if err != nil {
+		return observation{Err: err.Error()}
+	}
+	return observe(req.URL)
 }
 
 // ---- reference model ----
@@ -381,12 +488,15 @@ func renderSegs(s []expSeg) string {
 }
 
 // observedSegs splits the escaped path at '/', and decodes each segment.
-func observedSegs(esc string) ([]string, string) {
+func observedSegs(esc string, allowUnrooted bool) ([]string, string) {
 	if esc == "" {
 		return nil, ""
 	}
 	if esc[0] != '/' {
-		return nil, "escaped path is not rooted"
+		if !allowUnrooted {
+			return nil, "escaped path is not rooted"
+		}
+		esc = "/" + esc
 	}
 	parts := strings.Split(esc[1:], "/")
 	for i, p := range parts {
@@ -478,7 +588,9 @@ func leadingEmpty(exp []expSeg) bool {
 
 func judgePath(c *Case, o observation) *failure {
 	alts := expectedPaths(c)
-	obs, bad := observedSegs(o.Escaped)
+	// a base path assigned to the exported field is used as it is: without a leading slash the
+	// path may come out unrooted, which the text does not speak about
+	obs, bad := observedSegs(o.Escaped, c.Via == "field" && !c.Base.Lead)
 	if bad != "" {
 		return &failure{"path-malformed", fmt.Sprintf("%s: %s", o, bad)}
 	}
@@ -521,7 +633,7 @@ func classifyPath(c *Case, o observation, obs []string, exp []expSeg) *failure {
 			texts = append(texts, e.text)
 		}
 		// same decoded path, only the segmentation differs
-		sameDecoded := o.Path == "/"+strings.Join(texts, "/")
+		sameDecoded := strings.TrimPrefix(o.Path, "/") == strings.Join(texts, "/")
 		if staticNeedsEscaping(c) && pathHasSlash(c.Params) && sameDecoded {
 			return &failure{"separator-added/static-text-needs-escaping", what}
 		}
@@ -694,6 +806,12 @@ func judgeScheme(c *Case, o observation) *failure {
 	if len(acc) == 0 || acc[o.Scheme] {
 		return nil
 	}
+	// URI schemes are case-insensitive and the text does not fix a spelling
+	for a := range acc {
+		if strings.EqualFold(a, o.Scheme) {
+			return nil
+		}
+	}
 	if len(acc) == 1 && acc["https"] {
 		return &failure{"scheme/https-not-preferred", fmt.Sprintf("%s: scheme %q, but https is among several offered (transport %q, operation %q)", o, o.Scheme, c.Rt, c.Op)}
 	}
@@ -799,6 +917,17 @@ func check(rc rtCache, c *Case) ([]failure, stats) {
 				have[f.Class] = true
 				fails = append(fails, f)
 			}
+		}
+	}
+	if c.Via != "" && (c.Via != "field" || c.Base.Lead) {
+		// the variant must build what the common path builds
+		c0 := *c
+		c0.Via = ""
+		ord := perms(len(c.Params))[0]
+		o0 := execute(rc, &c0, ord)
+		st.execs++
+		if o0.key() != seen[0].key() {
+			fails = append(fails, failure{"variant-differs/" + c.Via, fmt.Sprintf("through %q: %s; through client.New + CreateHttpRequest: %s", c.Via, seen[0], o0)})
 		}
 	}
 	if len(seen) > 1 {
